@@ -30,6 +30,8 @@ DEFAULT_OPTS = {
   "conn_bias": 0,            # 0..3: extra weight for driving a new part through a connection instead of a block
   "struct_bias": 0,          # 0..4: how often a new signal gets a struct type
   "min_depth": 0,
+  "child_regs": True,        # a parent's update_ff block may write an input port of a child (s.child.in_ <<= ...)
+  "funcs": 1,                # 0..7: how often (in 1/8) a comb block delegates some of its targets to (nested) @s.func helpers
   "deep_rel": 1,             # 0..7: how often (in 1/8) a signal step builds a "driven only far below, read in between" chain
   "child_lists": True,       # lists of child components: s.cl3 = [ C1() for _ in range(n) ]
   "child_bias": 0,           # extra weight for instantiating children in a step
@@ -64,6 +66,8 @@ class ClassBuilder:
     self.ports, self.wires, self.children, self.conns, self.blocks, self.uu = [], [], [], [], [], []
     self.avail = []            # [(ref-without-slice, type)] readable sources (whole signals / child outs)
     self.n = 0
+    self.child_regs = []       # [(ref, type)] input ports of children that this component writes in an update_ff block
+    self.funcs = []            # [{"name", "stmts", "early"}] helper functions (@s.func) called from comb blocks
     self.ifc_insts = []        # [[attr, IfcName]]
     self.ifc_pool = {}         # IfcName -> [[member, dir, type]]
     self.lists = []            # [(inst, base, count, elemtype)] lists of signals readable with an index
@@ -507,7 +511,27 @@ class ClassBuilder:
           pre.append(self.struct_assign(ref, pt, {"tmps": [], "lv": [], "maxd": 2}))
         else:
           targets.append((ref, w))
-      blk = self.comb_block(targets, name)
+      o = self.opts
+      if targets and not o["translatable"] and not o["sloppy"] and d(st.integers(0, 7)) < o["funcs"]:
+        # some targets are assigned by a helper function, possibly through a second helper that only calls it:
+        # the block's reads and writes then come from the bodies of the functions it (transitively) calls
+        k = d(st.integers(1, len(targets)))
+        ftargets, targets = targets[:k], targets[k:]
+        inner = self.fresh("fn")
+        self.funcs.append({"name": inner, "stmts": self.comb_block(ftargets, inner)["stmts"], "early": d(st.booleans())})
+        callee = inner
+        for _ in range(d(st.integers(0, 2))):
+          outer = self.fresh("fn")
+          extra = []
+          if targets and d(st.booleans()):
+            extra = self.comb_block([targets.pop()], outer)["stmts"]
+          body = [["call", callee]] + extra if d(st.booleans()) else extra + [["call", callee]]
+          self.funcs.append({"name": outer, "stmts": body, "early": d(st.booleans())})
+          callee = outer
+        blk = self.comb_block(targets, name)
+        blk["stmts"].insert(d(st.integers(0, len(blk["stmts"]))), ["call", callee])
+      else:
+        blk = self.comb_block(targets, name)
       blk["stmts"] = pre + blk["stmts"]
       self.blocks.append(blk)
     if self.opts["uu"]:
@@ -673,6 +697,10 @@ class ClassBuilder:
     parts = []
     for n, dr, t in c["ports"]:
       if dr == "in":
+        if self.opts["ff"] and self.opts["child_regs"] and "[" not in n and "." not in n and d(st.integers(0, 5)) == 0 and \
+           (t[0] == "b" or not self.opts["translatable"] or _flat(t)):
+          self.child_regs.append((mkref(n, inst=iname), t))       # s.child.in_ <<= ... in one of the parent's ff blocks
+          continue
         parts.extend(self._child_in_parts(iname, n, t))
     self.drive(parts, "upc")
     groups = {}
@@ -742,6 +770,7 @@ class ClassBuilder:
       self.avail.append((mkref(n), mt))
     # ff blocks, created last so they may read everything
     self.regs = regs
+    regs = regs + self.child_regs
     if regs:
       k = d(st.integers(1, min(3, len(regs))))
       if o["ff_heavy"] and d(st.integers(0, 3)) > 0: k = min(4, len(regs))
@@ -754,7 +783,7 @@ class ClassBuilder:
       self.drive([(mkref(n), type_width(t), t)])
     return {"ports": self.ports, "wires": self.wires, "children": self.children,
             "conns": self.conns, "blocks": self.blocks, "uu": self.uu, "consts": self.consts,
-            "ifc_insts": self.ifc_insts}
+            "ifc_insts": self.ifc_insts, "funcs": self.funcs}
 
 
 def _mentions_signal(e):
@@ -814,12 +843,13 @@ def build_variant(draw, name, ports, opts, pool, depth, rdwr=False, once=False):
     if n in reg_outs: continue
     cb.drive(cb.parts_of(n, t))
   cb.regs = regs
+  regs = regs + cb.child_regs
   if regs:
     k = d(st.integers(1, min(3, len(regs))))
     for g in [regs[i::k] for i in range(k)]:
       cb.blocks.append(cb.ff_block(g, cb.fresh("ff")))
   cls = {"ports": cb.ports, "wires": cb.wires, "children": cb.children, "conns": cb.conns,
-         "blocks": cb.blocks, "uu": cb.uu, "rdwr": [], "consts": cb.consts}
+         "blocks": cb.blocks, "uu": cb.uu, "rdwr": [], "consts": cb.consts, "funcs": cb.funcs}
   combs = [b for b in cls["blocks"] if b["kind"] == "comb" and not b.get("lambda")]
   if rdwr and combs:
     # semantically neutral value constraints: WR(x) < U(b) for a block b that reads x, U(a) < RD(x) for a writer a
@@ -918,5 +948,8 @@ def features(design):
     if any("[" in i for i, _ in c["children"]): out.add("has_list_of_components")
     if c.get("ifc_insts"): out.add("has_interface")
     if any(b.get("lambda") for b in c["blocks"]): out.add("has_lambda_connection")
+    if c.get("funcs"): out.add("has_helper_function")
+    if any(b["kind"] == "ff" and '"inst": "' in __import__("json").dumps(b["stmts"]).replace('"inst": ""', "") for b in c["blocks"]): out.add("has_child_input_register")
+    if any(f["stmts"] and all(x[0] == "call" for x in f["stmts"]) for f in c.get("funcs", [])): out.add("has_pure_wrapper_function")
     if any("[" in n for n, _, _ in c["ports"]) or any("[" in n for n, _ in c["wires"]): out.add("has_signal_list")
   return sorted(out)
